@@ -130,7 +130,8 @@ Record SInv (s : sstate) : Prop := {
 
 Definition op_ok (o : op) : Prop :=
   match o with
-  | OSaveStore id _ | ODeleteStore id | OSaveWeight id _ _ | OSaveRegion id _ | ODeleteRegion id => 0 <= id < two64
+  | OSaveStore id _ | ODeleteStore id | OSaveWeight id _ _ | OSaveRegion id _ | ODeleteRegion id
+  | OSaveStoreF id _ _ | ODeleteStoreF id _ | OSaveWeightF id _ _ _ _ | OSaveRegionF id _ _ | ODeleteRegionF id _ => 0 <= id < two64
   | _ => True
   end.
 
@@ -199,22 +200,34 @@ Proof.
   cbn [fst snd] in *. apply inv_set_regions; assumption.
 Qed.
 
+Lemma inv_save_region s id v : SInv s -> 0 <= id < two64 -> SInv (fst (save_region s id v)).
+Proof.
+  intros I Ho. pose proof I as [H1 H2 H3 H4 H5 H6]. unfold save_region.
+  destruct (use_rs s).
+  - destruct (cache_size s <? batch_size - 1).
+    + constructor; cbn; try assumption. apply put_sorted0; [assumption|lia].
+    + apply inv_flush. constructor; cbn; try assumption. apply put_sorted0; [assumption|lia].
+  - constructor; cbn; try assumption. apply put_sorted0; [assumption|lia].
+Qed.
+
+Lemma inv_delete_region s id : SInv s -> SInv (fst (delete_region s id)).
+Proof.
+  intros I. pose proof I as [H1 H2 H3 H4 H5 H6]. unfold delete_region.
+  destruct (use_rs s); cbn [fst].
+  - constructor; cbn; try assumption; apply del_sorted; assumption.
+  - apply inv_set_regions; [exact I|]. apply del_sorted. assumption.
+Qed.
+
 Lemma inv_step s o : SInv s -> op_ok o -> SInv (fst (run_op s o)).
 Proof.
   intros I Ho. pose proof I as [H1 H2 H3 H4 H5 H6].
   destruct o; cbn [run_op op_ok] in *.
   - constructor; cbn; try assumption. apply put_sorted0; [assumption|lia].
-  - constructor; cbn; try assumption. apply del_sorted; assumption.
+  - constructor; cbn; try assumption; apply del_sorted; assumption.
   - constructor; cbn; try assumption; apply put_sorted0; solve [assumption|lia].
   - destruct (load_stores (stores s)); exact I.
-  - destruct (use_rs s).
-    + destruct (cache_size s <? batch_size - 1).
-      * constructor; cbn; try assumption. apply put_sorted0; [assumption|lia].
-      * apply inv_flush. constructor; cbn; try assumption. apply put_sorted0; [assumption|lia].
-    + constructor; cbn; try assumption. apply put_sorted0; [assumption|lia].
-  - destruct (use_rs s); cbn [fst].
-    + constructor; cbn; try assumption; apply del_sorted; assumption.
-    + apply inv_set_regions; [exact I|]. apply del_sorted. assumption.
+  - apply inv_save_region; assumption.
+  - apply inv_delete_region; assumption.
   - apply inv_flush. exact I.
   - constructor; cbn; assumption.
   - constructor; cbn; try assumption; try exact Logic.I.
@@ -224,7 +237,7 @@ Proof.
   - destruct (use_rs s) eqn:Ers; [|apply inv_collect; exact I].
     destruct (loaded_once s); [exact I|].
     pose proof (inv_collect s I) as IC. destruct (collect_regions s) as [s' b]. cbn [fst] in IC.
-    destruct b as [| |st l| |]; try exact IC. destruct st; try exact IC.
+    destruct b as [| |st l| | |]; try exact IC. destruct st; try exact IC.
     destruct IC as [C1 C2 C3 C4 C5 C6]. constructor; cbn; assumption.
   - pose proof (load_cache_sorted (faults_of s (use_rs s)) (regions_of s (use_rs s))) as P.
     assert (Hs : sorted_from 0 (regions_of s (use_rs s))) by (unfold regions_of; destruct (use_rs s); assumption).
@@ -234,6 +247,17 @@ Proof.
     destruct (use_rs s); [|constructor; assumption].
     constructor; cbn [stores lweight rweight base_r ldb batch]; try assumption.
     apply filter_sorted. exact S6.
+  - destruct applied; cbn [fst]; [|exact I]. constructor; cbn; try assumption. apply put_sorted0; [assumption|lia].
+  - destruct applied; cbn [fst]; [|exact I]. constructor; cbn; try assumption. apply del_sorted; assumption.
+  - exact I.
+  - destruct (use_rs s) eqn:Ers; [apply inv_save_region; assumption|].
+    destruct applied; cbn [fst]; [|exact I]. constructor; cbn; try assumption. apply put_sorted0; [assumption|lia].
+  - destruct (use_rs s) eqn:Ers; [apply inv_delete_region; assumption|].
+    destruct applied; cbn [fst]; [|exact I]. constructor; cbn; try assumption. apply del_sorted; assumption.
+  - apply inv_flush. exact I.
+  - cbn [fst]. destruct written.
+    + pose proof (inv_flush s I) as [F1 F2 F3 F4 F5 F6]. constructor; cbn; try assumption; try exact Logic.I.
+    + constructor; cbn; try assumption; try exact Logic.I.
 Qed.
 
 Lemma inv_init : SInv sinit.
@@ -250,12 +274,31 @@ Qed.
 (* ---------- what the history asks for: plain map semantics ---------- *)
 Definition fupd {X} (f : Z -> option X) (k : Z) (v : option X) : Z -> option X := fun j => if j =? k then v else f j.
 
-Definition store_want (f : Z -> option Z) (o : op) : Z -> option Z :=
-  match o with OSaveStore id p => fupd f id (Some p) | ODeleteStore id => fupd f id None | _ => f end.
-Definition lw_want (f : Z -> option Z) (o : op) : Z -> option Z :=
-  match o with OSaveWeight id l _ => fupd f id (Some l) | _ => f end.
-Definition rw_want (f : Z -> option Z) (o : op) : Z -> option Z :=
-  match o with OSaveWeight id _ r => fupd f id (Some r) | _ => f end.
+(* which key of the three store namespaces an operation writes, and what (None = removes it); an errored write
+   counts iff it was applied *)
+Definition store_eff (o : op) : option (Z * option Z) :=
+  match o with
+  | OSaveStore id p | OSaveStoreF id p true => Some (id, Some p)
+  | ODeleteStore id | ODeleteStoreF id true => Some (id, None)
+  | _ => None
+  end.
+Definition lw_eff (o : op) : option (Z * option Z) :=
+  match o with
+  | OSaveWeight id l _ => Some (id, Some l)
+  | ODeleteStore id => Some (id, None)
+  | _ => None
+  end.
+Definition rw_eff (o : op) : option (Z * option Z) :=
+  match o with
+  | OSaveWeight id _ r => Some (id, Some r)
+  | ODeleteStore id => Some (id, None)
+  | _ => None
+  end.
+Definition apply_eff (f : Z -> option Z) (e : option (Z * option Z)) : Z -> option Z :=
+  match e with Some (id, v) => fupd f id v | None => f end.
+Definition store_want (f : Z -> option Z) (o : op) : Z -> option Z := apply_eff f (store_eff o).
+Definition lw_want (f : Z -> option Z) (o : op) : Z -> option Z := apply_eff f (lw_eff o).
+Definition rw_want (f : Z -> option Z) (o : op) : Z -> option Z := apply_eff f (rw_eff o).
 
 Definition store_part (s : sstate) := (stores s, lweight s, rweight s).
 
@@ -265,27 +308,45 @@ Lemma collect_frame s : store_part (fst (collect_regions s)) = store_part s.
 Proof.
   unfold collect_regions. destruct (load_regions _ _ _ _) as [[[st acc] m'] c']. cbn [fst]. apply set_regions_frame.
 Qed.
+Lemma save_region_frame s id v : store_part (fst (save_region s id v)) = store_part s.
+Proof. unfold save_region. destruct (use_rs s); [destruct (cache_size s <? batch_size - 1)|]; reflexivity. Qed.
+Lemma delete_region_frame s id : store_part (fst (delete_region s id)) = store_part s.
+Proof. unfold delete_region. destruct (use_rs s); [reflexivity|cbn [fst]; apply set_regions_frame]. Qed.
 
-Lemma run_op_frame s o :
-  match o with OSaveStore _ _ | ODeleteStore _ | OSaveWeight _ _ _ => False | _ => True end ->
-  store_part (fst (run_op s o)) = store_part s.
+Definition eff_map (m : amap Z) (e : option (Z * option Z)) : amap Z :=
+  match e with Some (id, Some v) => put m id v | Some (id, None) => del m id | None => m end.
+
+(* every operation changes the three store namespaces exactly by its effects *)
+Lemma store_step s o :
+  store_part (fst (run_op s o)) = (eff_map (stores s) (store_eff o), eff_map (lweight s) (lw_eff o), eff_map (rweight s) (rw_eff o)).
 Proof.
-  intros H. destruct o; try contradiction; cbn [run_op].
+  destruct o; cbn [run_op store_eff lw_eff rw_eff eff_map]; try reflexivity.
   - destruct (load_stores (stores s)); reflexivity.
-  - destruct (use_rs s); [destruct (cache_size s <? batch_size - 1)|]; reflexivity.
-  - destruct (use_rs s); [reflexivity|cbn [fst]; apply set_regions_frame].
-  - reflexivity.
-  - reflexivity.
-  - reflexivity.
-  - reflexivity.
-  - reflexivity.
+  - apply save_region_frame.
+  - apply delete_region_frame.
   - apply collect_frame.
   - destruct (use_rs s); [|apply collect_frame]. destruct (loaded_once s); [reflexivity|].
     pose proof (collect_frame s) as F. destruct (collect_regions s) as [s' b]. cbn [fst] in *.
-    destruct b as [| |st l| |]; try exact F. destruct st; exact F.
+    destruct b as [| |st l| | |]; try exact F. destruct st; exact F.
   - destruct (load_regions _ _ _ _) as [[[st acc] m'] c']. cbn [fst].
     pose proof (set_regions_frame s (use_rs s) m') as F. destruct (use_rs s); exact F.
+  - destruct applied; reflexivity.
+  - destruct applied; reflexivity.
+  - destruct (use_rs s); [apply save_region_frame|]. destruct applied; reflexivity.
+  - destruct (use_rs s); [apply delete_region_frame|]. destruct applied; reflexivity.
+  - destruct written; reflexivity.
 Qed.
+
+Lemma lookup_eff m e j : sorted_from 0 m -> lookup (eff_map m e) j = apply_eff (lookup m) e j.
+Proof.
+  intros Hs. destruct e as [[id [v|]]|]; cbn [eff_map apply_eff]; unfold fupd.
+  - apply (lookup_put 0). exact Hs.
+  - apply (lookup_del 0). exact Hs.
+  - reflexivity.
+Qed.
+
+Lemma apply_eff_ext (f g : Z -> option Z) e : (forall j, f j = g j) -> forall j, apply_eff f e j = apply_eff g e j.
+Proof. intros H j. destruct e as [[id v]|]; cbn [apply_eff]; unfold fupd; [destruct (j =? id); [reflexivity|apply H]|apply H]. Qed.
 
 Lemma stores_follow ops : forall s f fl fr, SInv s -> ops_ok ops ->
   (forall id, lookup (stores s) id = f id) -> (forall id, lookup (lweight s) id = fl id) -> (forall id, lookup (rweight s) id = fr id) ->
@@ -296,19 +357,11 @@ Lemma stores_follow ops : forall s f fl fr, SInv s -> ops_ok ops ->
 Proof.
   induction ops as [|o ops IH]; intros s f fl fr I Hok Hf Hl Hr; cbn [run_state fold_left]; [auto|].
   destruct Hok as [Ho Hok]. pose proof I as [H1 H2 H3 _ _ _].
-  assert (Hcase : (exists id p, o = OSaveStore id p) \/ (exists id, o = ODeleteStore id) \/ (exists id l r, o = OSaveWeight id l r) \/
-                  match o with OSaveStore _ _ | ODeleteStore _ | OSaveWeight _ _ _ => False | _ => True end).
-  { destruct o; [left; eauto|right; left; eauto|right; right; left; eauto|right; right; right; exact Logic.I..]. }
-  apply IH; [apply inv_step; assumption|exact Hok| | |];
-    destruct Hcase as [(id0 & p & ->)|[(id0 & ->)|[(id0 & l & r & ->)|Hother]]];
-    intros id; cbn [run_op fst stores lweight rweight store_want lw_want rw_want];
-    try (pose proof (run_op_frame s o Hother) as F; unfold store_part in F; injection F as F1 F2 F3;
-         destruct o; try contradiction; cbn [store_want lw_want rw_want]; rewrite ?F1, ?F2, ?F3; auto);
-    try apply Hf; try apply Hl; try apply Hr.
-  - rewrite (lookup_put 0) by exact H1. unfold fupd. destruct (id =? id0); [reflexivity|apply Hf].
-  - rewrite (lookup_del 0) by exact H1. unfold fupd. destruct (id =? id0); [reflexivity|apply Hf].
-  - rewrite (lookup_put 0) by exact H2. unfold fupd. destruct (id =? id0); [reflexivity|apply Hl].
-  - rewrite (lookup_put 0) by exact H3. unfold fupd. destruct (id =? id0); [reflexivity|apply Hr].
+  pose proof (store_step s o) as E. unfold store_part in E. injection E as E1 E2 E3.
+  apply IH; [apply inv_step; assumption|exact Hok| | |]; intros j.
+  - rewrite E1, lookup_eff by exact H1. unfold store_want. apply apply_eff_ext. exact Hf.
+  - rewrite E2, lookup_eff by exact H2. unfold lw_want. apply apply_eff_ext. exact Hl.
+  - rewrite E3, lookup_eff by exact H3. unfold rw_want. apply apply_eff_ext. exact Hr.
 Qed.
 
 (* ---------- stores: what LoadStores hands to its callback ---------- *)
@@ -375,39 +428,58 @@ Proof.
   unfold set_regions, regions_of. destruct (use_rs s); cbn; auto.
 Qed.
 
+(* which region id an operation writes on the direct backend, and what; an errored write counts iff it was applied *)
+Definition region_eff (o : op) : option (Z * option rv) :=
+  match o with
+  | OSaveRegion id v | OSaveRegionF id v true => Some (id, Some v)
+  | ODeleteRegion id | ODeleteRegionF id true => Some (id, None)
+  | _ => None
+  end.
 Definition region_want (f : Z -> option rv) (o : op) : Z -> option rv :=
-  match o with OSaveRegion id v => fupd f id (Some v) | ODeleteRegion id => fupd f id None | _ => f end.
+  match region_eff o with Some (id, v) => fupd f id v | None => f end.
 Definition no_rwant : Z -> option rv := fun _ => None.
 
-(* histories without backend switches, crashes and pruning loads *)
+(* histories without backend switches, crashes and pruning loads; the timed flush may fire anywhere, writes of the
+   store namespaces may fail *)
 Definition plain_op (o : op) : bool :=
-  match o with OSwitch _ | OCrash | OLoadIntoCache => false | _ => true end.
+  match o with OSwitch _ | OCrash | OLoadIntoCache | OSaveRegionF _ _ _ | ODeleteRegionF _ _ | OCrashInFlush _ => false | _ => true end.
 Definition plain_ops (ops : list op) : bool := forallb plain_op ops.
+(* the direct backend also admits failing region writes *)
+Definition direct_op (o : op) : bool :=
+  plain_op o || match o with OSaveRegionF _ _ _ | ODeleteRegionF _ _ => true | _ => false end.
+Definition direct_ops (ops : list op) : bool := forallb direct_op ops.
 
-Lemma direct_step s o : plain_op o = true -> use_rs s = false ->
+Lemma plain_is_direct ops : plain_ops ops = true -> direct_ops ops = true.
+Proof.
+  induction ops as [|o r IH]; cbn [plain_ops direct_ops forallb]; [reflexivity|]. intros H.
+  apply andb_true_iff in H as [H1 H2]. unfold direct_op. rewrite H1. cbn [orb andb]. apply IH. exact H2.
+Qed.
+
+Lemma direct_step s o : direct_op o = true -> use_rs s = false ->
   use_rs (fst (run_op s o)) = false /\
-  base_r (fst (run_op s o)) = match o with
-                               | OSaveRegion id v => put (base_r s) id v
-                               | ODeleteRegion id => del (base_r s) id
-                               | _ => base_r s
+  base_r (fst (run_op s o)) = match region_eff o with
+                               | Some (id, Some v) => put (base_r s) id v
+                               | Some (id, None) => del (base_r s) id
+                               | None => base_r s
                                end.
 Proof.
   intros Hp Hrs. destruct (collect_keeps_regions s) as (C1 & _ & _ & _ & C5).
-  destruct o; try discriminate; cbn [run_op]; rewrite ?Hrs; cbn [fst];
-    try (destruct (load_stores (stores s))); unfold set_regions, regions_of; rewrite ?C1, ?C5, ?Hrs;
+  destruct o; try discriminate; cbn [run_op region_eff]; unfold save_region, delete_region; rewrite ?Hrs; cbn [fst];
+    try (destruct (load_stores (stores s))); try destruct applied; try destruct stage; unfold set_regions, regions_of, flush_batch;
+    rewrite ?C1, ?C5, ?Hrs;
     split; first [reflexivity | exact Hrs | cbn; first [reflexivity | exact Hrs]].
 Qed.
 
-Lemma direct_follow ops : forall s f, SInv s -> ops_ok ops -> plain_ops ops = true -> use_rs s = false ->
+Lemma direct_follow ops : forall s f, SInv s -> ops_ok ops -> direct_ops ops = true -> use_rs s = false ->
   (forall id, lookup (base_r s) id = f id) ->
   let s' := run_state run_op s ops in
   use_rs s' = false /\ forall id, lookup (base_r s') id = fold_left region_want ops f id.
 Proof.
   induction ops as [|o ops IH]; intros s f I Hok Hp Hrs Hf; cbn [run_state fold_left]; [auto|].
-  destruct Hok as [Ho Hok]. cbn [plain_ops forallb] in Hp. apply andb_true_iff in Hp as [Hpo Hp].
+  destruct Hok as [Ho Hok]. cbn [direct_ops forallb] in Hp. apply andb_true_iff in Hp as [Hpo Hp].
   pose proof (i_base s I) as Hb. destruct (direct_step s o Hpo Hrs) as [D1 D2].
   apply IH; [apply inv_step; assumption|exact Hok|exact Hp|exact D1|].
-  intros id. rewrite D2. destruct o; cbn [region_want]; try apply Hf.
+  intros id. rewrite D2. unfold region_want. destruct (region_eff o) as [[id0 [v|]]|]; [| |apply Hf].
   - rewrite (lookup_put 0) by exact Hb. unfold fupd. destruct (id =? id0); [reflexivity|apply Hf].
   - rewrite (lookup_del 0) by exact Hb. unfold fupd. destruct (id =? id0); [reflexivity|apply Hf].
 Qed.
@@ -480,7 +552,8 @@ Lemma rs_step s o f : SInv s -> op_ok o -> plain_op o = true -> use_rs s = true 
 Proof.
   intros I Ho Hp Hrs Hf. pose proof I as [_ _ _ _ H5 H6].
   destruct (collect_keeps_regions s) as (_ & C2 & C3 & _ & C5).
-  destruct o; try discriminate; cbn [run_op region_want]; rewrite ?Hrs; cbn [fst].
+  destruct o; try discriminate; cbn [run_op]; unfold region_want; cbn [region_eff]; unfold save_region, delete_region;
+    rewrite ?Hrs; cbn [fst].
   - split; [first [exact Hrs|reflexivity]|exact Hf].
   - split; [first [exact Hrs|reflexivity]|exact Hf].
   - split; [first [exact Hrs|reflexivity]|exact Hf].
@@ -509,7 +582,12 @@ Proof.
     destruct (collect_regions s) as [s' b] eqn:E. cbn [fst] in C2, C3, C5.
     assert (G : use_rs s' = true /\ forall j, overlay s' j = f j).
     { split; [rewrite C5; exact Hrs|]. intros j. unfold overlay. rewrite C2, C3. apply Hf. }
-    destruct b as [| |st l| |]; try exact G. destruct st; exact G.
+    destruct b as [| |st l| | |]; try exact G. destruct st; exact G.
+  - destruct applied; split; first [exact Hrs|reflexivity|exact Hf].
+  - destruct applied; split; first [exact Hrs|reflexivity|exact Hf].
+  - split; [first [exact Hrs|reflexivity]|exact Hf].
+  - (* the timed background flush *)
+    split; [first [exact Hrs|reflexivity]|]. intros j. rewrite overlay_flush by exact I. apply Hf.
 Qed.
 
 Lemma rs_follow ops : forall s f, SInv s -> ops_ok ops -> plain_ops ops = true -> use_rs s = true ->
@@ -542,21 +620,34 @@ Theorem crash_keeps_flushed s : ldb (fst (run_op s OCrash)) = ldb s /\ batch (fs
 Proof. repeat split. Qed.
 
 (* ---------- ids that a valid history leaves behind are uint64 ---------- *)
+Lemma store_eff_bound o id v : op_ok o -> store_eff o = Some (id, v) -> id < two64.
+Proof.
+  intros Ho E. destruct o; cbn [store_eff] in E; try discriminate; try destruct applied; try discriminate;
+    inversion E; subst; unfold op_ok in Ho; lia.
+Qed.
+Lemma region_eff_bound o id v : op_ok o -> region_eff o = Some (id, v) -> id < two64.
+Proof.
+  intros Ho E. destruct o; cbn [region_eff] in E; try discriminate; try destruct applied; try discriminate;
+    inversion E; subst; unfold op_ok in Ho; lia.
+Qed.
+
 Lemma store_want_bound ops : forall f, ops_ok ops -> (forall k v, f k = Some v -> k < two64) ->
   forall k v, fold_left store_want ops f k = Some v -> k < two64.
 Proof.
   induction ops as [|o r IH]; intros f Ho Hf k0 v0 E; cbn [fold_left] in E; [exact (Hf _ _ E)|].
   destruct Ho as [Ho Hr]. apply (IH (store_want f o) Hr) with (v := v0); [|exact E].
-  intros k1 v1 E1. destruct o; cbn [store_want] in E1; try exact (Hf _ _ E1); unfold fupd in E1;
-    destruct (k1 =? id) eqn:Ek; try exact (Hf _ _ E1); try discriminate; apply Z.eqb_eq in Ek; subst; unfold op_ok in Ho; lia.
+  intros k1 v1 E1. unfold store_want, apply_eff in E1. destruct (store_eff o) as [[id v]|] eqn:Ee; [|exact (Hf _ _ E1)].
+  unfold fupd in E1. destruct (k1 =? id) eqn:Ek; [|exact (Hf _ _ E1)].
+  apply Z.eqb_eq in Ek. subst k1. exact (store_eff_bound o id v Ho Ee).
 Qed.
 Lemma region_want_bound ops : forall f, ops_ok ops -> (forall k v, f k = Some v -> k < two64) ->
   forall k v, fold_left region_want ops f k = Some v -> k < two64.
 Proof.
   induction ops as [|o r IH]; intros f Ho Hf k0 v0 E; cbn [fold_left] in E; [exact (Hf _ _ E)|].
   destruct Ho as [Ho Hr]. apply (IH (region_want f o) Hr) with (v := v0); [|exact E].
-  intros k1 v1 E1. destruct o; cbn [region_want] in E1; try exact (Hf _ _ E1); unfold fupd in E1;
-    destruct (k1 =? id) eqn:Ek; try exact (Hf _ _ E1); try discriminate; apply Z.eqb_eq in Ek; subst; unfold op_ok in Ho; lia.
+  intros k1 v1 E1. unfold region_want in E1. destruct (region_eff o) as [[id v]|] eqn:Ee; [|exact (Hf _ _ E1)].
+  unfold fupd in E1. destruct (k1 =? id) eqn:Ek; [|exact (Hf _ _ E1)].
+  apply Z.eqb_eq in Ek. subst k1. exact (region_eff_bound o id v Ho Ee).
 Qed.
 
 Lemma all_pass {V} (m : amap V) (f : Z -> option V) : sorted_from 0 m -> (forall id, lookup m id = f id) ->
@@ -593,7 +684,7 @@ Qed.
 
 (* regions, direct backend, any byte budget *)
 Theorem load_regions_direct_pf :
-  forall ops, ops_ok ops -> plain_ops ops = true ->
+  forall ops, ops_ok ops -> direct_ops ops = true ->
     let s := run_state run_op sinit ops in
     (forall id, lookup (base_r s) id = fold_left region_want ops no_rwant id) /\
     sorted_from 0 (base_r s) /\
@@ -632,4 +723,16 @@ Proof.
   split; [rewrite Es; reflexivity|]. split; [exact L|]. split; [apply (i_ldb s Is)|].
   rewrite (rs_load_obs s Is Rs). f_equal.
   apply (all_pass (ldb s) _ (i_ldb s Is) L). apply (region_want_bound ops no_rwant Hok). intros k v E; discriminate.
+Qed.
+
+(* a stop of the process inside a flush: leveldb holds either everything the batch carried or nothing of it *)
+Theorem crash_in_flush_atomic s written : SInv s ->
+  let s' := fst (run_op s (OCrashInFlush written)) in
+  batch s' = [] /\ base_r s' = base_r s /\
+  forall id, lookup (ldb s') id = if written then overlay s id else lookup (ldb s) id.
+Proof.
+  intros I s'. unfold s'. cbn [run_op fst]. destruct written; cbn [batch base_r ldb flush_batch].
+  - split; [reflexivity|]. split; [reflexivity|]. intros id.
+    pose proof (overlay_flush s I id) as O. unfold overlay in O at 1. cbn [flush_batch batch ldb lookup] in O. exact O.
+  - repeat split.
 Qed.
